@@ -107,9 +107,10 @@ package buffer
 //@ func (*Reader).GetString
 //@   props C03 C18 C04
 //@   requires reader != nil
-//@   ensures [terminated] result.1 == nil ==> (off(reader.Msg) == off(old(reader.Msg)) + slen(result.0) + 1 && end(reader.Msg) == end(old(reader.Msg)) && arr(reader.Msg) == arr(old(reader.Msg)))
+//@   ensures [terminated] result.1 == nil ==> (off(reader.Msg) == off(old(reader.Msg)) + slen(result.0) + 1 && end(reader.Msg) == end(old(reader.Msg)) && arr(reader.Msg) == arr(old(reader.Msg)) && off(reader.Msg) + cap(reader.Msg) == off(old(reader.Msg)) + cap(old(reader.Msg)))
 //@   ensures [in-window] result.1 == nil ==> (slen(result.0) < len(old(reader.Msg)) && viewarr(result.0) == arr(old(reader.Msg)) && viewoff(result.0) == off(old(reader.Msg)))
 //@   ensures [nulfree] result.1 == nil ==> nulfree(result.0)
+//@   ensures [name-at] result.1 == nil ==> result.0 == cstr(arr(old(reader.Msg)), off(old(reader.Msg)))
 //@   ensures [terminator] result.1 == nil ==> mem(arr(old(reader.Msg)), off(old(reader.Msg)) + slen(result.0)) == 0
 //@   ensures [unterminated] result.1 != nil ==> (reader.Msg == old(reader.Msg) && result.0 == "")
 //@   ensures [err-kind] result.1 != nil ==> (result.1 != io.EOF && !isExceeded(result.1) && ErrTextOK(result.1))
@@ -121,7 +122,7 @@ package buffer
 //@   requires [n-nonneg] n >= 0
 //@   ensures [short] len(old(reader.Msg)) < n ==> (result.1 != nil && result.0 == nil && reader.Msg == old(reader.Msg))
 //@   ensures [view] len(old(reader.Msg)) >= n ==> (result.1 == nil && arr(result.0) == arr(old(reader.Msg)) && off(result.0) == off(old(reader.Msg)) && len(result.0) == n)
-//@   ensures [advance] len(old(reader.Msg)) >= n ==> (arr(reader.Msg) == arr(old(reader.Msg)) && off(reader.Msg) == off(old(reader.Msg)) + n && len(reader.Msg) == len(old(reader.Msg)) - n)
+//@   ensures [advance] len(old(reader.Msg)) >= n ==> (arr(reader.Msg) == arr(old(reader.Msg)) && off(reader.Msg) == off(old(reader.Msg)) + n && len(reader.Msg) == len(old(reader.Msg)) - n && off(reader.Msg) + cap(reader.Msg) == off(old(reader.Msg)) + cap(old(reader.Msg)))
 //@   ensures [err-kind] result.1 != nil ==> (result.1 != io.EOF && !isExceeded(result.1) && ErrTextOK(result.1))
 //@   modifies reader.Msg
 
@@ -138,7 +139,7 @@ package buffer
 //@   requires reader != nil
 //@   ensures [short] len(old(reader.Msg)) < 2 ==> (result.1 != nil && result.0 == 0 && reader.Msg == old(reader.Msg))
 //@   ensures [value] len(old(reader.Msg)) >= 2 ==> (result.1 == nil && result.0 == mbe16(arr(old(reader.Msg)), off(old(reader.Msg))))
-//@   ensures [advance] len(old(reader.Msg)) >= 2 ==> (arr(reader.Msg) == arr(old(reader.Msg)) && off(reader.Msg) == off(old(reader.Msg)) + 2 && len(reader.Msg) == len(old(reader.Msg)) - 2)
+//@   ensures [advance] len(old(reader.Msg)) >= 2 ==> (arr(reader.Msg) == arr(old(reader.Msg)) && off(reader.Msg) == off(old(reader.Msg)) + 2 && len(reader.Msg) == len(old(reader.Msg)) - 2 && off(reader.Msg) + cap(reader.Msg) == off(old(reader.Msg)) + cap(old(reader.Msg)))
 //@   ensures [err-kind] result.1 != nil ==> (result.1 != io.EOF && !isExceeded(result.1) && ErrTextOK(result.1))
 //@   modifies reader.Msg
 
@@ -147,7 +148,7 @@ package buffer
 //@   requires reader != nil
 //@   ensures [short] len(old(reader.Msg)) < 4 ==> (result.1 != nil && result.0 == 0 && reader.Msg == old(reader.Msg))
 //@   ensures [value] len(old(reader.Msg)) >= 4 ==> (result.1 == nil && result.0 == mbe32(arr(old(reader.Msg)), off(old(reader.Msg))))
-//@   ensures [advance] len(old(reader.Msg)) >= 4 ==> (arr(reader.Msg) == arr(old(reader.Msg)) && off(reader.Msg) == off(old(reader.Msg)) + 4 && len(reader.Msg) == len(old(reader.Msg)) - 4)
+//@   ensures [advance] len(old(reader.Msg)) >= 4 ==> (arr(reader.Msg) == arr(old(reader.Msg)) && off(reader.Msg) == off(old(reader.Msg)) + 4 && len(reader.Msg) == len(old(reader.Msg)) - 4 && off(reader.Msg) + cap(reader.Msg) == off(old(reader.Msg)) + cap(old(reader.Msg)))
 //@   ensures [err-kind] result.1 != nil ==> (result.1 != io.EOF && !isExceeded(result.1) && ErrTextOK(result.1))
 //@   modifies reader.Msg
 
@@ -219,7 +220,7 @@ package buffer
 //@   ghostset writer.#gn = old(WN(writer, 2, i)) if old(writer.err) == nil
 //@   ghostset writer.#gk = old(WK(writer, 2, i)) if old(writer.err) == nil
 //@   ghostset writer.#gm = old(WM(writer, 2, i)) if old(writer.err) == nil
-//@   modifies writer.err, writer.frame.#blen, bufbytes(writer.frame, writer.frame.#blen), writer.#gs, writer.#gn, writer.#gk, writer.#gm, #maxalloc, #nalloc
+//@   modifies writer.err, writer.frame.#blen, bufbytes(writer.frame, writer.frame.#blen), writer.#gs, writer.#gn, writer.#gk, writer.#gm
 
 //@ func (*Writer).AddInt32
 //@   props C02 C04
@@ -232,7 +233,7 @@ package buffer
 //@   ghostset writer.#gn = old(WN(writer, 3, i)) if old(writer.err) == nil
 //@   ghostset writer.#gk = old(WK(writer, 3, i)) if old(writer.err) == nil
 //@   ghostset writer.#gm = old(WM(writer, 3, i)) if old(writer.err) == nil
-//@   modifies writer.err, writer.frame.#blen, bufbytes(writer.frame, writer.frame.#blen), writer.#gs, writer.#gn, writer.#gk, writer.#gm, #maxalloc, #nalloc
+//@   modifies writer.err, writer.frame.#blen, bufbytes(writer.frame, writer.frame.#blen), writer.#gs, writer.#gn, writer.#gk, writer.#gm
 
 //@ func (*Writer).AddBytes
 //@   props C02 C04 C09
@@ -307,5 +308,22 @@ package buffer
 //@   ghostset #E_R = old(writer.#eR) if old(writer.err) == nil && result == nil && old(writer.#ft) == 'E'
 //@   ghostset #E_n = old(writer.#en) if old(writer.err) == nil && result == nil && old(writer.#ft) == 'E'
 //@   ensures [fail-stop] old(#failed) ==> result != nil
-//@   ensures [err-kind] (old(writer.err) == nil && result != nil) ==> !isExceeded(result)
+//@   ensures [err-kind] (old(writer.err) == nil && result != nil) ==> SinkErr(result)
 //@   modifies writer.err, writer.frame.#blen, bufbytes(writer.frame, 1), #nOut, #nZ, #nE, #last, #cyc, #failed, #E_mask, #E_S, #E_C, #E_M, #E_D, #E_H, #E_F, #E_L, #E_R, #E_n
+
+// errors.As walks the wrap chain with reflection; its effect is specified, not verified.
+//@ func UnwrapMessageSizeExceeded
+//@   props C10 C04
+//@   trusted
+//@   ensures ret1 == isExceeded(err)
+//@   ensures ret1 ==> (ret0.Size == excSize(err) && ret0.Max == excMax(err))
+//@   modifies nothing
+
+//@ func NewMessageSizeExceeded
+//@   props C10 C04
+//@   ensures [a] result != nil && isExceeded(result)
+//@   ensures [b] excSize(result) == size && excMax(result) == max
+//@   ensures [c] ErrTextOK(result)
+//@   ensures [d] result != io.EOF
+//@   ensures [code-severity] {C10} specCode(result) == "54000" && specSeverity(result) == "ERROR"
+//@   modifies nothing
